@@ -257,6 +257,11 @@ func newChain(dir string, r *rand.Rand, extraBlocks int) (*chain, error) {
 	for _, a := range c.ethAddrs {
 		txs = append(txs, must(k.TransferTx(ledgerkit.OngAddr, k.Acct, common.Address(a), 50_000_000_000, 0, 20000)))
 	}
+	ap, err := c.nativeTx(ledgerkit.OngAddr, "approve", []interface{}{&ont.TransferState{From: k.Acct.Address, To: c.users[0].Address, Value: 1_000_000_000}}, k.Acct)
+	if err != nil {
+		return nil, err
+	}
+	txs = append(txs, ap)
 	if err := c.add(txs...); err != nil {
 		return nil, fmt.Errorf("block1: %v", err)
 	}
